@@ -349,11 +349,15 @@ Proof.
     rewrite <- seq_shift, map_map. apply map_ext. intros a. lia.
 Qed.
 
+Lemma exists_last_or_nil {T} (y : list T) : y = [] \/ exists y' c, y = y' ++ [c].
+Proof. destruct y as [|a y]; [left; reflexivity|right]. destruct (@exists_last _ (a :: y)) as (y' & c & E); [discriminate|eauto]. Qed.
+
+Lemma filter_len_le {T} (f : T -> bool) l : (length (filter f l) <= length l)%nat.
+Proof. induction l as [|a l IH]; cbn [filter length]; [lia|]. destruct (f a); cbn [length]; lia. Qed.
+
 Section Subtree.
-  Variables (S : list str) (B : list blk) (d : xbw).
+  Variables (S : list str) (B : list blk).
   Hypothesis HB : binv S B.
-  Hypothesis HA : ainv S B d.
-  Hypothesis HS : S <> [].
 
   (* a row of a proper block (everything but the two sentinel rows) *)
   Definition RowIn (k : list N) (c : N) : Prop := exists b, In b (tl B) /\ fst b = k /\ In c (snd b).
@@ -460,7 +464,7 @@ Section Subtree.
 
   Lemma ST_len K : (length (ST K) <= length (rows_of B))%nat.
   Proof.
-    unfold ST. eapply Nat.le_trans; [apply filter_length_le|]. unfold idx. rewrite map_length, seq_length. lia.
+    unfold ST. eapply Nat.le_trans; [apply filter_len_le|]. unfold idx. rewrite map_length, seq_length. lia.
   Qed.
 
   Lemma ST_ge2 K j : (3 <= length K)%nat -> In j (ST K) -> 2 <= j.
@@ -507,8 +511,6 @@ Section Subtree.
     Permutation (ST (c :: k)) (n :: flat_map STi (rangeN ini fin)).
   Proof.
     intros Hn H2 Hle Hini Hch. pose proof (row_RowIn n k c Hn H2) as HR. pose proof (RowIn_len _ _ HR) as HL.
-    assert (Hrange : forall i, ini <= i <= fin -> In j (STi i) -> True) by auto.
-    clear Hrange.
     assert (HSTi : forall i j, In i (rangeN ini fin) -> In j (STi i) ->
               exists ci, nthN (rows_of B) i = Some (c :: k, ci) /\ In j (ST (ci :: c :: k))).
     { intros i j Hi Hj. unfold STi in Hj. destruct (nthN (rows_of B) i) as [[ki ci]|] eqn:Ei; [|destruct Hj].
@@ -544,3 +546,867 @@ Section Subtree.
           eapply ST_trans; [exact Hj'|]. exists [ci]. reflexivity.
   Qed.
 End Subtree.
+
+(* ================================================================== *)
+(* 3. the BFS of the prefix iterators                                  *)
+(* ================================================================== *)
+(* both iterators are the same loop around a different "emit" step *)
+Fixpoint gdrain {T} (emit : N -> N -> option T) (d : xbw) (cap : nat) (it : xit) : option (list T * bool) :=
+  if xit_hasNext it then
+    match cap with
+    | O => Some ([], true)
+    | Datatypes.S cap' =>
+        match bfs_descend d (xfuel d) (xi_queue it) with
+        | Some (q0 :: qt) =>
+            match emit (xi_processed it) q0 with
+            | None => None
+            | Some x =>
+                match gdrain emit d cap' (xit_advance it qt) with
+                | None => None
+                | Some (r, more) => Some (x :: r, more)
+                end
+            end
+        | _ => None
+        end
+    end
+  else Some ([], false).
+
+Definition id_emit (d : xbw) (_ q0 : N) : option N := alpha_rank d (x_maxLabel d) q0.
+
+Definition sit_emit (d : xbw) (prefix : list N) (pr q0 : N) : option (list N * N) :=
+  match sit_idToStr d (xfuel d) pr q0 0 with
+  | None => None
+  | Some v =>
+      if x_maxlength d + 1 <? lenN prefix + lenN v then None
+      else Some (cstr (prefix ++ v), u32 (lenN prefix + lenN v + W32 - 1))
+  end.
+
+Lemma xit_drain_gdrain d cap : forall it, xit_drain d cap it = gdrain (id_emit d) d cap it.
+Proof.
+  induction cap as [|cap IH]; intros it; cbn [xit_drain gdrain]; [reflexivity|].
+  destruct (xit_hasNext it); [|reflexivity]. unfold xit_next, id_emit.
+  destruct (bfs_descend d (xfuel d) (xi_queue it)) as [[|q0 qt]|]; try reflexivity.
+  destruct (alpha_rank d (x_maxLabel d) q0); [|reflexivity]. rewrite IH. reflexivity.
+Qed.
+
+Lemma sit_drain_gdrain d prefix cap : forall it, sit_drain d prefix cap it = gdrain (sit_emit d prefix) d cap it.
+Proof.
+  induction cap as [|cap IH]; intros it; cbn [sit_drain gdrain]; [reflexivity|].
+  destruct (xit_hasNext it); [|reflexivity]. unfold sit_next, sit_emit.
+  destruct (bfs_descend d (xfuel d) (xi_queue it)) as [[|q0 qt]|]; try reflexivity.
+  destruct (sit_idToStr d (xfuel d) (xi_processed it) q0 0); [|reflexivity].
+  destruct (x_maxlength d + 1 <? lenN prefix + lenN l); [reflexivity|]. rewrite IH. reflexivity.
+Qed.
+
+Lemma u64_small x : x < W64 -> u64 x = x.
+Proof. intros H. unfold u64. apply N.mod_small. exact H. Qed.
+
+Section BFS.
+  Variables (S : list str) (B : list blk) (d : xbw).
+  Hypothesis HB : binv S B.
+  Hypothesis HA : ainv S B d.
+  Hypothesis HS : S <> [].
+
+  Notation sti := (STi B).
+  Notation lvi := (LVi B).
+  Notation st := (ST B).
+  Notation lfb := (leafb B).
+
+  Definition qweight (queue : list N) : nat := length (flat_map sti queue).
+
+  Lemma STi_row pr q : In q (sti pr) ->
+    exists kp cp k c y, nthN (rows_of B) pr = Some (kp, cp) /\ nthN (rows_of B) q = Some (k, c) /\ c :: k = y ++ cp :: kp.
+  Proof.
+    unfold STi. destruct (nthN (rows_of B) pr) as [[kp cp]|]; [|intros []].
+    intros H. apply ST_In in H as (k & c & y & Hq & E). exists kp, cp, k, c, y. auto.
+  Qed.
+
+  Lemma STi_self q k c : nthN (rows_of B) q = Some (k, c) -> In q (sti q).
+  Proof. intros H. unfold STi. rewrite H. apply ST_In. exists k, c, []. auto. Qed.
+
+  Lemma leaf_LVi q k : nthN (rows_of B) q = Some (k, 255) -> 2 <= q -> sti q = [q] /\ lvi q = [q].
+  Proof.
+    intros H H2. unfold LVi, STi. rewrite H. unfold nkey; cbn [snd fst].
+    rewrite (ST_leaf S B HB q k H H2). split; [reflexivity|]. cbn [filter]. unfold leafb. rewrite H. reflexivity.
+  Qed.
+
+  Section OneSubtree.
+    Variables (pr : N) (kp : list N) (cp : N).
+    Hypothesis Hpr : nthN (rows_of B) pr = Some (kp, cp).
+    Hypothesis Hpr2 : 2 <= pr.
+
+    Lemma sub_node q : In q (sti pr) -> 2 <= q /\ exists k c, nthN (rows_of B) q = Some (k, c).
+    Proof.
+      intros H. split.
+      - unfold STi in H. rewrite Hpr in H. apply (ST_ge2 S B HB (cp :: kp)); [|exact H].
+        pose proof (RowIn_len S B HB _ _ (row_RowIn S B HB pr kp cp Hpr Hpr2)). unfold nkey; cbn [length snd fst]. lia.
+      - destruct (STi_row pr q H) as (_ & _ & k & c & _ & _ & Hq & _). eauto.
+    Qed.
+
+    Lemma bfs_descend_ok : forall fuel queue, queue <> [] -> (forall q, In q queue -> In q (sti pr)) ->
+      (qweight queue <= fuel)%nat ->
+      exists q0 qt, bfs_descend d fuel queue = Some (q0 :: qt) /\ lfb q0 = true /\
+        (forall q, In q (q0 :: qt) -> In q (sti pr)) /\
+        Permutation (flat_map lvi queue) (q0 :: flat_map lvi qt) /\
+        (qweight (q0 :: qt) <= qweight queue)%nat /\ qweight (q0 :: qt) = Datatypes.S (qweight qt).
+    Proof.
+      induction fuel as [|f IH]; intros queue Hne Hsub HW.
+      - exfalso. destruct queue as [|q0 qt]; [congruence|].
+        destruct (sub_node q0 (Hsub q0 (or_introl eq_refl))) as (_ & k0 & c0 & Hq0).
+        pose proof (STi_self q0 k0 c0 Hq0) as Hself. unfold qweight in HW. cbn [flat_map] in HW. rewrite app_length in HW.
+        destruct (sti q0); [destruct Hself|cbn [length] in HW; lia].
+      - destruct queue as [|q0 qt]; [congruence|].
+        destruct (sub_node q0 (Hsub q0 (or_introl eq_refl))) as (Hq2 & k0 & c0 & Hq0).
+        pose proof (nthN_labels B q0 k0 c0 Hq0) as Hlab.
+        cbn [bfs_descend]. rewrite (alpha_access_eq S B d HA q0 c0 Hlab).
+        destruct (N.eq_dec c0 255) as [->|Hc0].
+        + rewrite (ai_max _ _ _ HA), N.eqb_refl. destruct (leaf_LVi q0 k0 Hq0 Hq2) as [E1 E2].
+          exists q0, qt. split; [reflexivity|]. split; [unfold leafb; rewrite Hq0; reflexivity|].
+          split; [exact Hsub|]. split; [cbn [flat_map]; rewrite E2; apply Permutation_refl|].
+          split; [lia|]. unfold qweight. cbn [flat_map]. rewrite E1. reflexivity.
+        + assert (Hin : In c0 (labels_of B)) by (unfold nthN in Hlab; eapply nth_error_In; eauto).
+          rewrite (maxLabel_neq S B d HB HA HS c0 Hin Hc0).
+          destruct (getChildren_spec S B d HB HA HS q0 k0 c0 Hq0 ltac:(lia) Hc0) as (ini & fin & HG & Hle & Hini & Hfin & Hch).
+          rewrite HG. rewrite (ai_nodes _ _ _ HA).
+          replace (lenN (labels_of B) <=? fin) with false by lia. rewrite andb_false_r.
+          pose proof (ST_children S B HB q0 k0 c0 ini fin Hq0 Hq2 Hle Hini Hch) as HP.
+          assert (HST0 : sti q0 = st (c0 :: k0)) by (unfold STi; rewrite Hq0; reflexivity).
+          assert (HWq : qweight (q0 :: qt) = Datatypes.S (qweight (qt ++ rangeN ini fin))).
+          { unfold qweight. cbn [flat_map]. rewrite flat_map_app, !app_length, HST0, (Permutation_length HP). cbn [length]. lia. }
+          destruct (IH (qt ++ rangeN ini fin)) as (q0' & qt' & E & Hl & Hs' & HPm & HW1 & HW2).
+          * intros E. apply app_eq_nil in E as [_ E]. assert (In ini (rangeN ini fin)) by (apply rangeN_In; lia).
+            rewrite E in H. destruct H.
+          * intros q Hq. apply in_app_or in Hq as [Hq|Hq]; [apply Hsub; right; exact Hq|].
+            apply rangeN_In in Hq.
+            assert (Hq' : q < lenN (rows_of B)) by (rewrite rows_len; lia).
+            destruct (nthN_lt_Some _ _ Hq') as [[kq cq] Hrq].
+            pose proof (proj1 (Hch q kq cq Hrq) Hq) as ->.
+            destruct (STi_row pr q0 (Hsub q0 (or_introl eq_refl))) as (kp' & cp' & k0' & c0' & y & Hp' & Hq0' & Ey).
+            rewrite Hq0 in Hq0'. injection Hq0' as <- <-.
+            unfold STi. rewrite Hp'. apply ST_In. exists (c0 :: k0), cq, (cq :: y). split; [exact Hrq|].
+            unfold nkey; cbn [app snd fst]. rewrite Ey. reflexivity.
+          * lia.
+          * exists q0', qt'. split; [exact E|]. split; [exact Hl|]. split; [exact Hs'|]. split; [|split; [lia|exact HW2]].
+            eapply Permutation_trans; [|exact HPm]. cbn [flat_map]. rewrite flat_map_app.
+            eapply Permutation_trans; [apply Permutation_app_comm|]. apply Permutation_app_head.
+            unfold LVi at 1. rewrite HST0.
+            eapply Permutation_trans; [apply Permutation_filter; exact HP|]. cbn [filter].
+            replace (lfb q0) with false.
+            2:{ unfold leafb. rewrite Hq0. cbn [snd]. symmetry. apply N.eqb_neq. exact Hc0. }
+            rewrite filter_flat_map. apply Permutation_refl.
+    Qed.
+
+    Variables (T : Type) (emit : N -> N -> option T) (g : N -> T) (rt : N).
+    Hypothesis Hemit : forall q0, In q0 (lvi pr) -> emit pr q0 = Some (g q0).
+    Hypothesis Hrt : pr <= rt /\ rt < lenN (labels_of B).
+
+    Lemma subtree_drain : forall m queue, (qweight queue <= m)%nat -> queue <> [] -> (forall q, In q queue -> In q (sti pr)) ->
+      (qweight queue <= length (rows_of B))%nat ->
+      exists E, Permutation E (flat_map lvi queue) /\
+        forall cap, gdrain emit d (length E + cap) (mk_xit queue pr (rt + 1)) =
+          match gdrain emit d cap (mk_xit [pr + 1] (pr + 1) (rt + 1)) with
+          | None => None
+          | Some (r, more) => Some (map g E ++ r, more)
+          end.
+    Proof.
+      pose proof (nodes_small S B d HA) as Hsm.
+      induction m as [|m IH]; intros queue HWm Hne Hsub HWn.
+      - exfalso. destruct queue as [|q0 qt]; [congruence|].
+        destruct (sub_node q0 (Hsub q0 (or_introl eq_refl))) as (_ & k0 & c0 & Hq0).
+        pose proof (STi_self q0 k0 c0 Hq0) as Hself. unfold qweight in HWm. cbn [flat_map] in HWm. rewrite app_length in HWm.
+        destruct (sti q0); [destruct Hself|cbn [length] in HWm; lia].
+      - assert (Hfuel : (qweight queue <= xfuel d)%nat).
+        { unfold xfuel. rewrite (ai_alpha _ _ _ HA), map_length. pose proof (rows_len B) as HL. unfold lenN in HL. lia. }
+        destruct (bfs_descend_ok (xfuel d) queue Hne Hsub Hfuel) as (q0 & qt & E & Hl & Hs' & HPm & HW1 & HW2).
+        assert (Hem : emit pr q0 = Some (g q0)).
+        { apply Hemit. unfold LVi. apply filter_In. split; [apply Hs'; left; reflexivity|exact Hl]. }
+        assert (Hnext : xit_hasNext (mk_xit queue pr (rt + 1)) = true) by (unfold xit_hasNext; cbn [xi_processed xi_scan]; lia).
+        destruct qt as [|q1 qt'].
+        + exists [q0]. split; [apply Permutation_sym; exact HPm|]. intros cap.
+          cbn [length Nat.add gdrain]. rewrite Hnext. cbn [xi_queue xi_processed]. rewrite E, Hem.
+          cbn [xit_advance xi_processed xi_scan]. rewrite (u64_small (pr + 1)) by (unfold W64, W32 in *; lia).
+          rewrite (u32_small (pr + 1)) by lia.
+          destruct (gdrain emit d cap (mk_xit [pr + 1] (pr + 1) (rt + 1))) as [[r more]|]; reflexivity.
+        + destruct (IH (q1 :: qt')) as (E' & HP' & Hdr); [lia|discriminate|intros q Hq; apply Hs'; right; exact Hq|lia|].
+          exists (q0 :: E'). split.
+          * eapply Permutation_trans; [|apply Permutation_sym; exact HPm]. constructor. exact HP'.
+          * intros cap. cbn [length Nat.add gdrain]. rewrite Hnext. cbn [xi_queue xi_processed]. rewrite E, Hem.
+            cbn [xit_advance xi_processed xi_scan]. rewrite Hdr.
+            destruct (gdrain emit d cap (mk_xit [pr + 1] (pr + 1) (rt + 1))) as [[r more]|]; reflexivity.
+    Qed.
+  End OneSubtree.
+
+  Section Range.
+    Variables (T : Type) (emit : N -> N -> option T) (g : N -> T) (lf rt : N).
+    Hypothesis Hlf : 2 <= lf.
+    Hypothesis Hrt : rt < lenN (labels_of B).
+    Hypothesis Hemit : forall pr q0, lf <= pr <= rt -> In q0 (lvi pr) -> emit pr q0 = Some (g q0).
+
+    Lemma range_drain : forall k pr, N.of_nat k = rt + 1 - pr -> lf <= pr -> pr <= rt + 1 ->
+      exists E, Permutation E (flat_map lvi (rangeN pr rt)) /\
+        forall cap, gdrain emit d (length E + cap) (mk_xit [pr] pr (rt + 1)) = Some (map g E, false).
+    Proof.
+      induction k as [|k IH]; intros pr Hk Hl Hr.
+      - exists []. split.
+        + unfold rangeN. replace (rt <? pr) with true by lia. constructor.
+        + intros cap. cbn [length Nat.add].
+          assert (Hn : xit_hasNext (mk_xit [pr] pr (rt + 1)) = false) by (unfold xit_hasNext; cbn [xi_processed xi_scan]; lia).
+          destruct cap; cbn [gdrain]; rewrite Hn; reflexivity.
+      - assert (Hpr : pr <= rt) by lia.
+        assert (Hpr' : pr < lenN (rows_of B)) by (rewrite rows_len; lia).
+        destruct (nthN_lt_Some _ _ Hpr') as [[kp cp] Hrow].
+        destruct (subtree_drain pr kp cp Hrow ltac:(lia) T emit g rt (fun q0 => Hemit pr q0 ltac:(lia)) (conj Hpr Hrt)
+                    (qweight [pr]) [pr] (Nat.le_refl _) ltac:(discriminate)) as (E1 & HP1 & Hd1).
+        { intros q [<-|[]]. eapply STi_self; eauto. }
+        { unfold qweight. cbn [flat_map]. rewrite app_nil_r. unfold STi. rewrite Hrow. apply ST_len. }
+        destruct (IH (pr + 1)) as (E2 & HP2 & Hd2); [lia|lia|lia|].
+        exists (E1 ++ E2). split.
+        + rewrite (rangeN_cons pr rt Hpr). cbn [flat_map]. apply Permutation_app; [|exact HP2].
+          cbn [flat_map] in HP1. rewrite app_nil_r in HP1. exact HP1.
+        + intros cap. rewrite app_length, <- Nat.add_assoc, Hd1, Hd2, map_app. reflexivity.
+    Qed.
+  End Range.
+End BFS.
+
+(* ================================================================== *)
+(* 4. the range of the pattern node, its leaves, and the emitted items  *)
+(* ================================================================== *)
+Lemma cstr_nz s t : Forall qchar s -> cstr (s ++ 0 :: t) = s.
+Proof.
+  induction s as [|x s IH]; intros H; cbn [app cstr]; [reflexivity|].
+  pose proof (Forall_inv H) as Hx. unfold qchar in Hx. replace (x =? 0) with false by lia.
+  f_equal. apply IH. eapply Forall_inv_tail; eauto.
+Qed.
+
+Definition rowstr (B : list blk) (j : N) : list N :=
+  match nthN (rows_of B) j with Some r => unkey (fst r) | None => [] end.
+
+Section Prefix.
+  Variables (S : list str) (B : list blk) (d : xbw).
+  Hypothesis HB : binv S B.
+  Hypothesis HA : ainv S B d.
+  Hypothesis HS : S <> [].
+
+  Notation sti := (STi B).
+  Notation lvi := (LVi B).
+  Notation st := (ST B).
+  Notation lfb := (leafb B).
+
+  Lemma row_ge2 i k c : nthN (rows_of B) i = Some (k, c) -> (2 <= length k)%nat -> 2 <= i.
+  Proof.
+    intros Hrow HL. destruct (row0 S B HB) as [R0 R1].
+    destruct (N.lt_ge_cases i 2) as [Hlt|]; [|assumption]. exfalso.
+    assert (i = 0 \/ i = 1) as [-> | ->] by lia.
+    - rewrite R0 in Hrow. injection Hrow as <- _. cbn [length] in HL. lia.
+    - rewrite R1 in Hrow. injection Hrow as <- _. cbn [length] in HL. lia.
+  Qed.
+
+  Lemma mkkey_len p : length (mkkey p) = (length p + 2)%nat.
+  Proof. unfold mkkey. rewrite app_length, rev_length. reflexivity. Qed.
+
+  Lemma RowIn_mkkey k c : RowIn B k c -> mkkey (unkey k) = k.
+  Proof.
+    intros H. destruct (RowIn_key S B HB k c H) as (r & -> & _). rewrite unkey_app. unfold mkkey.
+    now rewrite rev_involutive.
+  Qed.
+
+  Lemma mkkey_inj a b : mkkey a = mkkey b -> a = b.
+  Proof. intros H. rewrite <- (unkey_mkkey a), <- (unkey_mkkey b), H. reflexivity. Qed.
+
+  (* the range handed to the prefix iterators *)
+  Lemma prefix_range_gen p : p <> [] -> Forall qchar p ->
+    exists l r, xbw_subPathSearch d (0 :: p) = Some (l, r) /\
+      (forall i k c, nthN (rows_of B) i = Some (k, c) -> (l <= i <= r <-> k = mkkey p)) /\
+      (l <= r -> 2 <= l /\ r < lenN (labels_of B)).
+  Proof.
+    intros Hp Hq. destruct p as [|c1 rest] eqn:Ep; [congruence|]. rewrite <- Ep in *.
+    destruct (xbw_subPathSearch_spec S B d HB HA 0 c1 rest (or_introl eq_refl)) as (l & r & E & HR).
+    { rewrite <- Ep. exact Hq. }
+    rewrite <- Ep in E, HR. exists l, r. split; [exact E|].
+    assert (Hchar : forall i k c, nthN (rows_of B) i = Some (k, c) -> (l <= i <= r <-> k = mkkey p)).
+    { intros i k c Hrow.
+      pose proof (row_range S B HB (rev (0 :: p)) i k c Hrow) as Hrr.
+      assert (H1 : l <= i <= r <-> is_prefix (rev (0 :: p)) k = true).
+      { unfold Res in HR. destruct (N.leb_spec l r) as [Hlr|Hlr].
+        - destruct HR as [-> Er]. rewrite <- Hrr. lia.
+        - unfold Emp in HR.
+          assert (NR (klt (rev (0 :: p))) B = NR (kle (rev (0 :: p))) B) by (unfold NR; now rewrite HR).
+          rewrite <- Hrr. lia. }
+      rewrite H1. replace (rev (0 :: p)) with (rev p ++ [0]) by reflexivity. split.
+      - intros Hpre. destruct (row_decomp B i k c Hrow) as (B1 & b & B2 & t & EB & _ & _ & Ek & _).
+        assert (Hb : In b B) by (rewrite EB; apply in_or_app; right; left; reflexivity).
+        rewrite <- Ek in Hpre |- *. apply (prefix_key S B HB p b); assumption.
+      - intros ->. unfold mkkey. replace (rev p ++ [0; 0]) with ((rev p ++ [0]) ++ [0]) by (rewrite <- app_assoc; reflexivity).
+        apply is_prefix_app. eauto. }
+    split; [exact Hchar|].
+    intros Hlr. unfold Res in HR. replace (l <=? r) with true in HR by lia. destruct HR as [El Er].
+    pose proof (NR_le_total (kle (rev (0 :: p))) B). split; [|lia].
+    assert (Hl' : l < lenN (rows_of B)) by (rewrite rows_len; lia).
+    destruct (nthN_lt_Some _ _ Hl') as [[kl cl] Hrow].
+    apply (row_ge2 l kl cl Hrow). rewrite (proj1 (Hchar l kl cl Hrow) ltac:(lia)), mkkey_len. lia.
+  Qed.
+
+  Section WithRange.
+    Variables (p : list N) (l r : N).
+    Hypothesis Hp : p <> [].
+    Hypothesis Hq : Forall qchar p.
+    Hypothesis Hchar : forall i k c, nthN (rows_of B) i = Some (k, c) -> (l <= i <= r <-> k = mkkey p).
+
+    Lemma range_row i : In i (rangeN l r) -> r < lenN (labels_of B) -> exists ci, nthN (rows_of B) i = Some (mkkey p, ci).
+    Proof.
+      intros Hi Hr. apply rangeN_In in Hi. assert (Hi' : i < lenN (rows_of B)) by (rewrite rows_len; lia).
+      destruct (nthN_lt_Some _ _ Hi') as [[ki ci] Hrow]. rewrite (proj1 (Hchar i ki ci Hrow) Hi) in Hrow. eauto.
+    Qed.
+
+    (* the terminator leaves below the rows of the range are the members with the prefix *)
+    Lemma leaves_char j : r < lenN (labels_of B) ->
+      (In j (flat_map lvi (rangeN l r)) <->
+       exists s, In s S /\ is_prefix p s = true /\ nthN (rows_of B) j = Some (mkkey s, 255) /\ 2 <= j).
+    Proof.
+      intros Hr. split.
+      - intros Hin. apply in_flat_map in Hin as (i & Hi & Hj).
+        destruct (range_row i Hi Hr) as (ci & Hrow).
+        unfold LVi in Hj. apply filter_In in Hj as [Hj Hlf]. unfold STi in Hj. rewrite Hrow in Hj.
+        unfold nkey in Hj; cbn [snd fst] in Hj.
+        assert (Hj2 : 2 <= j) by (apply (ST_ge2 S B HB _ j) in Hj; [exact Hj|cbn [length]; rewrite mkkey_len; lia]).
+        apply ST_In in Hj as (k' & c' & y & Hrj & E).
+        unfold leafb in Hlf. rewrite Hrj in Hlf. cbn [snd] in Hlf. apply N.eqb_eq in Hlf. subst c'.
+        pose proof (row_RowIn S B HB j k' 255 Hrj Hj2) as HR.
+        exists (unkey k'). split; [|split; [|split; [rewrite (RowIn_mkkey _ _ HR); exact Hrj|exact Hj2]]].
+        + destruct HR as (b & Hb & <- & H255). apply (bi_leaf _ _ HB b Hb H255).
+        + apply is_prefix_app. destruct y as [|a y].
+          * cbn [app] in E. injection E as _ ->. exists []. rewrite unkey_mkkey, app_nil_r. reflexivity.
+          * cbn [app] in E. injection E as _ ->. exists (ci :: rev y).
+            unfold mkkey. replace (y ++ ci :: rev p ++ [0; 0]) with ((y ++ ci :: rev p) ++ [0; 0]) by (rewrite <- app_assoc; reflexivity).
+            rewrite unkey_app, rev_app_distr. cbn [rev]. rewrite rev_involutive, <- app_assoc. reflexivity.
+      - intros (s & Hs & Hpre & Hrj & Hj2). apply is_prefix_app in Hpre as [t ->].
+        pose proof (row_RowIn S B HB j _ 255 Hrj Hj2) as HR.
+        assert (Hlf : lfb j = true) by (unfold leafb; rewrite Hrj; reflexivity).
+        destruct t as [|c1 t].
+        + rewrite app_nil_r in *. apply in_flat_map. exists j. split; [apply rangeN_In, (Hchar j _ 255 Hrj); reflexivity|].
+          unfold LVi. apply filter_In. split; [|exact Hlf]. unfold STi. rewrite Hrj. apply ST_In.
+          exists (mkkey p), 255, []. auto.
+        + assert (E : 255 :: mkkey (p ++ c1 :: t) = (255 :: rev t) ++ c1 :: mkkey p).
+          { unfold mkkey. rewrite rev_app_distr. cbn [rev app]. rewrite <- !app_assoc. reflexivity. }
+          pose proof (up_closed S B HB (255 :: rev t) _ 255 c1 (mkkey p) HR E ltac:(rewrite mkkey_len; lia)) as HR1.
+          destruct (RowIn_row S B HB _ _ HR1) as (i & Hi & _ & _).
+          apply in_flat_map. exists i. split; [apply rangeN_In, (Hchar i _ c1 Hi); reflexivity|].
+          unfold LVi. apply filter_In. split; [|exact Hlf]. unfold STi. rewrite Hi. apply ST_In.
+          exists (mkkey (p ++ c1 :: t)), 255, (255 :: rev t). auto.
+    Qed.
+
+    Lemma leaves_NoDup : r < lenN (labels_of B) -> 2 <= l -> NoDup (flat_map lvi (rangeN l r)).
+    Proof.
+      intros Hr Hl. apply NoDup_flat_map_intro.
+      - apply rangeN_NoDup.
+      - intros i _. unfold LVi, STi. apply NoDup_filter. destruct (nthN (rows_of B) i); [apply ST_NoDup|constructor].
+      - intros i1 i2 j Hi1 Hi2 Hj1 Hj2.
+        destruct (range_row i1 Hi1 Hr) as (c1 & Hr1). destruct (range_row i2 Hi2 Hr) as (c2 & Hr2).
+        unfold LVi in Hj1, Hj2. apply filter_In in Hj1 as [Hj1 _]. apply filter_In in Hj2 as [Hj2 _].
+        unfold STi in Hj1, Hj2. rewrite Hr1 in Hj1. rewrite Hr2 in Hj2.
+        apply ST_In in Hj1 as (k' & c' & y1 & Hrow & E1). apply ST_In in Hj2 as (k'' & c'' & y2 & Hrow' & E2).
+        rewrite Hrow in Hrow'. injection Hrow' as <- <-. rewrite E1 in E2. unfold nkey in E2; cbn [snd fst] in E2.
+        destruct (app_eq_len _ _ _ _ E2 eq_refl) as [_ E3]. injection E3 as ->.
+        apply rangeN_In in Hi1. apply (row_inj S B HB i1 i2 _ _ Hr1 Hr2). lia.
+    Qed.
+
+    Lemma leaf_row_inj j1 j2 : r < lenN (labels_of B) -> In j1 (flat_map lvi (rangeN l r)) -> In j2 (flat_map lvi (rangeN l r)) ->
+      rowstr B j1 = rowstr B j2 -> j1 = j2.
+    Proof.
+      intros Hr H1 H2 E. apply (leaves_char j1 Hr) in H1 as (s1 & _ & _ & R1 & J1).
+      apply (leaves_char j2 Hr) in H2 as (s2 & _ & _ & R2 & J2).
+      unfold rowstr in E. rewrite R1, R2 in E. cbn [fst] in E. rewrite !unkey_mkkey in E. subst s2.
+      apply (row_inj S B HB j1 j2 _ _ R1 R2 J1).
+    Qed.
+
+    (* the strings of the leaves: exactly the members with the prefix *)
+    Lemma leaves_strings E : r < lenN (labels_of B) -> 2 <= l -> NoDup S -> Permutation E (flat_map lvi (rangeN l r)) ->
+      Permutation (map (rowstr B) E) (filter (is_prefix p) S).
+    Proof.
+      intros Hr Hl HND HP.
+      assert (HinE : forall j, In j E <-> In j (flat_map lvi (rangeN l r))).
+      { intros j. split; apply Permutation_in; [exact HP|apply Permutation_sym; exact HP]. }
+      apply NoDup_Permutation.
+      - apply NoDup_map_in.
+        + intros x y Hx Hy. apply (leaf_row_inj x y Hr); apply HinE; assumption.
+        + apply (Permutation_NoDup (Permutation_sym HP)). apply leaves_NoDup; assumption.
+      - apply NoDup_filter. exact HND.
+      - intros s. rewrite in_map_iff, filter_In. split.
+        + intros (j & <- & Hj). apply HinE, (leaves_char j Hr) in Hj as (s & Hs & Hpre & Hrow & _).
+          unfold rowstr. rewrite Hrow. cbn [fst]. rewrite unkey_mkkey. auto.
+        + intros [Hs Hpre]. destruct (bi_mem _ _ HB s Hs) as (b & Hb & Ek & H255).
+          assert (HR : RowIn B (mkkey s) 255).
+          { exists b. split; [|auto]. apply (has255_tl S B HB b Hb). apply has_In. exact H255. }
+          destruct (RowIn_row S B HB _ _ HR) as (j & Hrow & Hj2 & _).
+          exists j. split; [unfold rowstr; rewrite Hrow; cbn [fst]; apply unkey_mkkey|].
+          apply HinE, (leaves_char j Hr). exists s. auto.
+    Qed.
+  End WithRange.
+End Prefix.
+
+(* ================================================================== *)
+(* 5. what the two iterators emit for a leaf                            *)
+(* ================================================================== *)
+Section Emit.
+  Variables (S : list str) (B : list blk) (d : xbw).
+  Hypothesis HB : binv S B.
+  Hypothesis HA : ainv S B d.
+  Hypothesis HS : S <> [].
+
+  (* the ID of a terminator leaf = the position of its string in the ID order *)
+  Lemma leaf_id j s : nthN (rows_of B) j = Some (mkkey s, 255) ->
+    seq_rank 255 (labels_of B) j = spec_locate (xbw_order_of B) s.
+  Proof.
+    intros Hrow. destruct (row_decomp B j _ 255 Hrow) as (C1 & bl & C2 & t & EC & Ej & Ht & Ek & Hct).
+    destruct (nth_error_split _ _ Hct) as (l1 & l2 & El & Hl1).
+    rewrite Ej. replace t with (lenN l1) by (unfold lenN; lia).
+    rewrite (rank_at_row S B HB C1 bl C2 l1 255 l2 EC El) by lia.
+    assert (H1 : has 255 bl = true) by (apply has_In; rewrite El; apply in_or_app; right; left; reflexivity).
+    assert (Hnth : nthN (xbw_order_of B) (lenN (filter (has 255) C1)) = Some s).
+    { unfold xbw_order_of. rewrite EC. rewrite filter_app. cbn [filter]. rewrite H1.
+      rewrite map_app. cbn [map].
+      rewrite <- (lenN_map (fun b : blk => unkey (fst b)) (filter (has 255) C1)).
+      rewrite nthN_mid. rewrite Ek, unkey_mkkey. reflexivity. }
+    unfold spec_locate. rewrite (nth_index_from _ 1 _ s (N.le_refl 1) (order_NoDup S B HB) Hnth). lia.
+  Qed.
+
+  Lemma id_emit_ok q0 : q0 < lenN (labels_of B) -> id_emit d q0 q0 = Some (seq_rank 255 (labels_of B) q0).
+  Proof.
+    intros H. unfold id_emit. rewrite (ai_max _ _ _ HA).
+    destruct (label_used S B HB 255 (used_255 S B d HB HA HS)) as [Hu _].
+    apply (alpha_rank_eq S B d HB HA 255); [lia|exact Hu|exact H].
+  Qed.
+
+  (* the depth of a row is bounded by the number of nodes *)
+  Lemma key_depth k c : RowIn B k c -> (length k <= length (labels_of B))%nat.
+  Proof.
+    intros (b & Hb & <- & _). destruct (key_form S B HB b Hb) as (r & Er & Hvr).
+    assert (HbB : In b B) by (destruct (B_shape S B HB) as (l1 & B2 & E); rewrite E in Hb |- *; right; exact Hb).
+    assert (Ekey : fst b = mkkey (rev r)) by (unfold mkkey; rewrite rev_involutive; exact Er).
+    assert (Hvrev : Forall vbyte (rev r)).
+    { apply Forall_forall. intros x Hx. apply in_rev in Hx. rewrite Forall_forall in Hvr. auto. }
+    destruct (depth_bound S B HB (rev r) b HbB Ekey Hvrev) as (L & ND & Hincl & Hlen & _).
+    pose proof (NoDup_incl_length ND Hincl) as HL. rewrite map_length in HL.
+    pose proof (neb_len B (B_neb S B HB)) as HnB. unfold lenN in HnB.
+    rewrite Er, app_length. cbn [length]. rewrite rev_length in Hlen. unfold blk in *. lia.
+  Qed.
+
+  Lemma label_unmap i k c : nthN (rows_of B) i = Some (k, c) ->
+    alpha_access d i = Some (mapf d c) /\ xunmap d (mapf d c) = Some c.
+  Proof.
+    intros Hrow. split; [apply (alpha_access_eq S B d HA), (nthN_labels B i k c Hrow)|].
+    assert (Hl : In c (labels_of B)) by (apply nthN_labels in Hrow; unfold nthN in Hrow; eapply nth_error_In; eauto).
+    destruct (label_used S B HB c Hl) as [Hu Hc256]. destruct (used_facts S B d HA c Hc256 Hu) as (_ & Hun & _). exact Hun.
+  Qed.
+
+  Section Up.
+    Variables (pr : N) (Kp : list N) (cp : N).
+    Hypothesis Hpr : nthN (rows_of B) pr = Some (Kp, cp).
+    Hypothesis Hpr2 : 2 <= pr.
+
+    Lemma parent_row id kid cid y : nthN (rows_of B) id = Some (kid, cid) -> 2 <= id -> kid = y ++ cp :: Kp ->
+      exists par c'' k'', xbw_getParent d id = Some par /\ nthN (rows_of B) par = Some (k'', c'') /\ 2 <= par /\
+        c'' :: k'' = kid.
+    Proof.
+      intros Hid Hid2 Ek.
+      pose proof (row_RowIn S B HB id kid cid Hid Hid2) as HRid.
+      destruct (RowIn_key S B HB _ _ HRid) as (r & Er & Hvr & _).
+      pose proof (RowIn_len S B HB _ _ (row_RowIn S B HB pr Kp cp Hpr Hpr2)) as HLp.
+      destruct r as [|c'' r'].
+      { exfalso. rewrite Ek in Er. apply (f_equal (@length N)) in Er. rewrite app_length in Er. cbn [length app] in Er. lia. }
+      pose proof (Forall_inv Hvr) as Hc''. cbn [app] in Er. rewrite Er in Hid.
+      destruct (getParent_spec S B d HB HA id c'' (r' ++ [0; 0]) cid Hc'' Hid) as (par & Hpar & Hprow).
+      exists par, c'', (r' ++ [0; 0]). split; [exact Hpar|]. split; [exact Hprow|]. split; [|symmetry; exact Er].
+      apply (row_ge2 S B HB par _ _ Hprow). rewrite app_length. cbn [length]. lia.
+    Qed.
+
+    Lemma sit_up : forall y fuel id cnt cid kid, nthN (rows_of B) id = Some (kid, cid) -> 2 <= id ->
+      cid :: kid = y ++ cp :: Kp -> 1 <= cnt -> cnt + lenN y < W32 -> (length y <= fuel)%nat ->
+      sit_idToStr d fuel pr id cnt = Some (cp :: rev y).
+    Proof.
+      destruct (label_unmap pr Kp cp Hpr) as [Hap Hup].
+      induction y as [|a y IH]; intros fuel id cnt cid kid Hid Hid2 E Hcnt Hsm Hf.
+      - cbn [app] in E. injection E as -> ->.
+        assert (pr = id) by (apply (row_inj S B HB pr id Kp cp Hpr Hid Hpr2)). subst id.
+        destruct fuel; cbn [sit_idToStr]; rewrite N.eqb_refl; replace (0 <? cnt) with true by lia; rewrite Hap, Hup; reflexivity.
+      - cbn [app] in E. injection E as -> Ek.
+        assert (Hne : id <> pr).
+        { intros ->. rewrite Hpr in Hid. injection Hid as E1 _. rewrite Ek in E1. apply (f_equal (@length N)) in E1.
+          rewrite app_length in E1. cbn [length] in E1. lia. }
+        destruct fuel as [|f]; [cbn [length] in Hf; lia|]. cbn [sit_idToStr]. replace (id =? pr) with false by lia.
+        rewrite lenN_cons in Hsm. rewrite (u32_small (cnt + 1)) by lia.
+        destruct (parent_row id kid a y Hid Hid2 Ek) as (par & c'' & k'' & Hpar & Hprow & Hpar2 & Ekk).
+        rewrite Hpar.
+        rewrite (IH f par (cnt + 1) c'' k'' Hprow Hpar2 ltac:(rewrite Ekk; exact Ek) ltac:(lia) ltac:(lia) ltac:(cbn [length] in Hf; lia)).
+        replace (1 <? cnt + 1) with true by lia.
+        destruct (label_unmap id _ a Hid) as [Ha Hu]. rewrite Ha, Hu. reflexivity.
+    Qed.
+
+    Lemma sit_leaf p q0 : Kp = mkkey p -> In q0 (LVi B pr) ->
+      exists k0 w, nthN (rows_of B) q0 = Some (k0, 255) /\ 2 <= q0 /\
+        sit_idToStr d (xfuel d) pr q0 0 = Some (w ++ [0]) /\ unkey k0 = p ++ w.
+    Proof.
+      intros EKp Hq0. unfold LVi in Hq0. apply filter_In in Hq0 as [Hq0 Hlf]. unfold STi in Hq0. rewrite Hpr in Hq0.
+      unfold nkey in Hq0; cbn [snd fst] in Hq0.
+      pose proof (RowIn_len S B HB _ _ (row_RowIn S B HB pr Kp cp Hpr Hpr2)) as HLp.
+      assert (Hq2 : 2 <= q0) by (apply (ST_ge2 S B HB _ q0) in Hq0; [exact Hq0|cbn [length]; lia]).
+      apply ST_In in Hq0 as (k0 & c0 & y & Hrow & E).
+      unfold leafb in Hlf. rewrite Hrow in Hlf. cbn [snd] in Hlf. apply N.eqb_eq in Hlf. subst c0.
+      exists k0. destruct y as [|a y].
+      - cbn [app] in E. injection E as <- ->. exists []. split; [exact Hrow|]. split; [exact Hq2|].
+        assert (pr = q0) by (apply (row_inj S B HB pr q0 _ _ Hpr Hrow Hpr2)). subst q0.
+        split; [|rewrite EKp, unkey_mkkey, app_nil_r; reflexivity].
+        unfold xfuel. cbn [sit_idToStr]. rewrite N.eqb_refl. reflexivity.
+      - cbn [app] in E. injection E as <- Ek. exists (cp :: rev y). split; [exact Hrow|]. split; [exact Hq2|].
+        split.
+        + assert (Hne : q0 <> pr).
+          { intros ->. rewrite Hpr in Hrow. injection Hrow as E1 _. rewrite Ek in E1. apply (f_equal (@length N)) in E1.
+            rewrite app_length in E1. cbn [length] in E1. lia. }
+          pose proof (key_depth k0 255 (row_RowIn S B HB q0 k0 255 Hrow Hq2)) as HD.
+          pose proof (nodes_small S B d HA) as Hsm.
+          assert (HLy : (length y < length (labels_of B))%nat).
+          { rewrite Ek, app_length in HD. cbn [length] in HD. lia. }
+          unfold xfuel. cbn [sit_idToStr]. replace (q0 =? pr) with false by lia.
+          rewrite (u32_small (0 + 1)) by (unfold W32; lia).
+          destruct (parent_row q0 k0 255 y Hrow Hq2 Ek) as (par & c'' & k'' & Hpar & Hprow & Hpar2 & Ekk).
+          rewrite Hpar.
+          rewrite (sit_up y (length (x_alpha d)) par (0 + 1) c'' k'' Hprow Hpar2 ltac:(rewrite Ekk; exact Ek) ltac:(lia)).
+          * replace (1 <? 0 + 1) with false by lia. reflexivity.
+          * unfold lenN in *. lia.
+          * rewrite (ai_alpha _ _ _ HA), map_length. lia.
+        + rewrite Ek, EKp. unfold mkkey.
+          replace (y ++ cp :: rev p ++ [0; 0]) with ((y ++ cp :: rev p) ++ [0; 0]) by (rewrite <- app_assoc; reflexivity).
+          rewrite unkey_app, rev_app_distr. cbn [rev]. rewrite rev_involutive, <- app_assoc. reflexivity.
+    Qed.
+
+    Lemma sit_emit_ok p q0 : (forall s, In s S -> Forall qchar s) -> Kp = mkkey p -> In q0 (LVi B pr) ->
+      sit_emit d p pr q0 = Some (rowstr B q0, lenN (rowstr B q0)).
+    Proof.
+      intros member_chars EKp Hq0. destruct (sit_leaf p q0 EKp Hq0) as (k0 & w & Hrow & Hq2 & Hsit & Es).
+      pose proof (row_RowIn S B HB q0 k0 255 Hrow Hq2) as HR.
+      assert (Hin : In (unkey k0) S) by (destruct HR as (b & Hb & <- & H255); apply (bi_leaf _ _ HB b Hb H255)).
+      pose proof (member_chars _ Hin) as Hqs.
+      pose proof (spec_maxlen_bounds_aux S _ Hin) as Hml.
+      pose proof (key_depth k0 255 HR) as HD. pose proof (nodes_small S B d HA) as Hsm.
+      assert (Hlen : lenN (unkey k0) < W32 - 1).
+      { destruct (RowIn_key S B HB _ _ HR) as (r & Er & _). rewrite Er in HD |- *. rewrite unkey_app.
+        rewrite app_length in HD. unfold lenN in *. rewrite rev_length. lia. }
+      unfold sit_emit. rewrite Hsit. unfold rowstr. rewrite Hrow. cbn [fst].
+      assert (EL : lenN p + lenN (w ++ [0]) = lenN (unkey k0) + 1).
+      { rewrite Es, !lenN_app. change (lenN [0]) with 1. lia. }
+      rewrite EL, (ai_maxlen _ _ _ HA).
+      replace (spec_maxlen S + 1 + 1 <? lenN (unkey k0) + 1) with false by lia.
+      rewrite app_assoc, <- Es, cstr_nz by exact Hqs. do 2 f_equal.
+      unfold u32. replace (lenN (unkey k0) + 1 + W32 - 1) with (lenN (unkey k0) + 1 * W32) by lia.
+      rewrite N.mod_add by (unfold W32; lia). apply N.mod_small. lia.
+    Qed.
+  End Up.
+
+  (* every node has a terminator leaf below it *)
+  Definition maxkey : nat := list_max (map (fun b : blk => length (fst b)) B).
+
+  Lemma key_le_max b : In b B -> (length (fst b) <= maxkey)%nat.
+  Proof.
+    intros Hb. unfold maxkey.
+    pose proof (proj1 (list_max_le (map (fun b : blk => length (fst b)) B) _) (Nat.le_refl _)) as H.
+    rewrite Forall_forall in H. apply H. apply in_map_iff. eauto.
+  Qed.
+
+  Lemma leaf_below : forall m b, In b (tl B) -> (maxkey - length (fst b) <= m)%nat ->
+    exists s, In s S /\ is_prefix (unkey (fst b)) s = true.
+  Proof.
+    induction m as [|m IH]; intros b Hb Hm.
+    - destruct (bi_blk _ _ HB b Hb) as (_ & Hne & _ & _). destruct (snd b) as [|c lt] eqn:El; [congruence|].
+      assert (HbB : In b B) by (destruct (B_shape S B HB) as (l1 & B2 & E); rewrite E in Hb |- *; right; exact Hb).
+      destruct (N.eq_dec c 255) as [->|Hc].
+      + exists (unkey (fst b)). split; [apply (bi_leaf _ _ HB b Hb); rewrite El; left; reflexivity|].
+        apply is_prefix_app. exists []. now rewrite app_nil_r.
+      + exfalso. destruct (bi_down _ _ HB b c Hb ltac:(rewrite El; left; reflexivity) Hc) as (b' & Hb' & Ek).
+        pose proof (key_le_max b' Hb') as H. rewrite Ek in H. cbn [length] in H. lia.
+    - destruct (bi_blk _ _ HB b Hb) as (_ & Hne & _ & _). destruct (snd b) as [|c lt] eqn:El; [congruence|].
+      destruct (N.eq_dec c 255) as [->|Hc].
+      + exists (unkey (fst b)). split; [apply (bi_leaf _ _ HB b Hb); rewrite El; left; reflexivity|].
+        apply is_prefix_app. exists []. now rewrite app_nil_r.
+      + destruct (bi_down _ _ HB b c Hb ltac:(rewrite El; left; reflexivity) Hc) as (b' & Hb' & Ek).
+        assert (Hb't : In b' (tl B)).
+        { destruct (B_in_cases S B HB b' Hb') as [->|]; [|assumption]. cbn [fst] in Ek.
+          destruct (key_form S B HB b Hb) as (r & Er & _). rewrite Er in Ek. destruct r; discriminate. }
+        destruct (IH b' Hb't ltac:(rewrite Ek; cbn [length]; lia)) as (s & Hs & Hpre).
+        exists s. split; [exact Hs|]. apply is_prefix_app in Hpre as [t Et]. apply is_prefix_app.
+        destruct (key_form S B HB b Hb) as (r & Er & _). rewrite Ek, Er in Et.
+        replace (c :: r ++ [0; 0]) with ((c :: r) ++ [0; 0]) in Et by reflexivity. rewrite unkey_app in Et. cbn [rev] in Et.
+        exists (c :: t). rewrite Er, unkey_app, Et, <- app_assoc. reflexivity.
+  Qed.
+End Emit.
+
+(* ================================================================== *)
+(* 6. the exported statements                                           *)
+(* ================================================================== *)
+(* the client loop with a smaller cap sees a prefix of the stream, and MORE iff something is left *)
+Lemma gdrain_firstn {T} (emit : N -> N -> option T) d : forall cap k it L,
+  gdrain emit d (cap + k) it = Some (L, false) ->
+  gdrain emit d cap it = Some (firstn cap L, (cap <? length L)%nat).
+Proof.
+  induction cap as [|c IH]; intros k it L H.
+  - cbn [Nat.add] in H. cbn [gdrain firstn]. destruct (xit_hasNext it) eqn:Hn.
+    + destruct k as [|k]; cbn [gdrain] in H; rewrite Hn in H; [discriminate|].
+      destruct (bfs_descend d (xfuel d) (xi_queue it)) as [[|q0 qt]|]; try discriminate.
+      destruct (emit (xi_processed it) q0); [|discriminate].
+      destruct (gdrain emit d k (xit_advance it qt)) as [[r more]|]; [|discriminate].
+      injection H as <- _. reflexivity.
+    + destruct k as [|k]; cbn [gdrain] in H; rewrite Hn in H; injection H as <-; reflexivity.
+  - cbn [Nat.add gdrain] in H |- *. destruct (xit_hasNext it) eqn:Hn.
+    + destruct (bfs_descend d (xfuel d) (xi_queue it)) as [[|q0 qt]|]; try discriminate.
+      destruct (emit (xi_processed it) q0); [|discriminate].
+      destruct (gdrain emit d (c + k) (xit_advance it qt)) as [[r more]|] eqn:E; [|discriminate].
+      injection H as <- ->. rewrite (IH k _ r E). reflexivity.
+    + injection H as <-. reflexivity.
+Qed.
+
+Section Final.
+  Variables (S : list str) (d : xbw).
+  Hypothesis HV : valid_set S.
+  Hypothesis HC : xbw_check S d = true.
+  Let B := trie_blocks S.
+  Let HB : binv S B := proj1 (xbw_check_sound S d HC).
+  Let HA : ainv S B d := proj2 (xbw_check_sound S d HC).
+  Let HS : S <> [] := proj1 (valid_set_facts S HV).
+  Let HND : NoDup S := proj2 (valid_set_facts S HV).
+
+  Lemma member_chars s : In s S -> Forall qchar s.
+  Proof. intros Hs. apply (member_qchar S d HV s Hs). Qed.
+
+  (* 1. navigation downward *)
+  Theorem XBW_getChildren_spec n k c : nthN (rows_of B) n = Some (k, c) -> 1 <= n -> c <> 255 ->
+    exists ini fin, xbw_getChildren d n = Some (ini, fin) /\ ini <= fin /\
+      forall i k' c', nthN (rows_of B) i = Some (k', c') -> (ini <= i <= fin <-> k' = c :: k).
+  Proof.
+    intros Hrow Hn Hc. destruct (getChildren_spec S B d HB HA HS n k c Hrow Hn Hc) as (ini & fin & HG & Hle & _ & _ & Hch).
+    exists ini, fin. auto.
+  Qed.
+
+  (* a member with the prefix puts a row into the range of the pattern node *)
+  Lemma member_row p s l r : (forall i k c, nthN (rows_of B) i = Some (k, c) -> (l <= i <= r <-> k = mkkey p)) ->
+    In s S -> is_prefix p s = true -> l <= r.
+  Proof.
+    intros Hchar Hs Hpre. apply is_prefix_app in Hpre as [t ->].
+    destruct (bi_mem _ _ HB _ Hs) as (b & Hb & Ek & H255).
+    assert (HR : RowIn B (mkkey (p ++ t)) 255).
+    { exists b. split; [|auto]. apply (has255_tl S B HB b Hb). apply has_In. exact H255. }
+    destruct t as [|c1 t].
+    - rewrite app_nil_r in HR. destruct (RowIn_row S B HB _ _ HR) as (j & Hj & _).
+      pose proof (proj2 (Hchar j _ _ Hj) eq_refl). lia.
+    - assert (E : 255 :: mkkey (p ++ c1 :: t) = (255 :: rev t) ++ c1 :: mkkey p).
+      { unfold mkkey. rewrite rev_app_distr. cbn [rev app]. rewrite <- !app_assoc. reflexivity. }
+      pose proof (up_closed S B HB (255 :: rev t) _ 255 c1 (mkkey p) HR E ltac:(rewrite mkkey_len; lia)) as HR1.
+      destruct (RowIn_row S B HB _ _ HR1) as (i & Hi & _).
+      pose proof (proj2 (Hchar i _ _ Hi) eq_refl). lia.
+  Qed.
+
+  (* a non-empty range has a member below it *)
+  Lemma range_member p l r : (forall i k c, nthN (rows_of B) i = Some (k, c) -> (l <= i <= r <-> k = mkkey p)) ->
+    l <= r -> 2 <= l -> r < lenN (labels_of B) -> exists s, In s S /\ is_prefix p s = true.
+  Proof.
+    intros Hchar Hlr Hl Hr. assert (Hl' : l < lenN (rows_of B)) by (rewrite rows_len; lia).
+    destruct (nthN_lt_Some _ _ Hl') as [[kl cl] Hrow].
+    pose proof (proj1 (Hchar l kl cl Hrow) ltac:(lia)) as ->.
+    destruct (row_RowIn S B HB l _ cl Hrow Hl) as (b & Hb & Ek & _).
+    destruct (leaf_below S B HB (maxkey B - length (fst b)) b Hb (Nat.le_refl _)) as (s & Hs & Hpre).
+    exists s. split; [exact Hs|]. rewrite Ek, unkey_mkkey in Hpre. exact Hpre.
+  Qed.
+
+  (* one run of a prefix iterator over a non-empty range, for every cap of the client loop *)
+  Lemma run_gen (T : Type) (emit : N -> N -> option T) (g : N -> T) p l r : p <> [] -> Forall qchar p ->
+    (forall i k c, nthN (rows_of B) i = Some (k, c) -> (l <= i <= r <-> k = mkkey p)) ->
+    l <= r -> 2 <= l -> r < lenN (labels_of B) ->
+    (forall pr q0, l <= pr <= r -> In q0 (LVi B pr) -> emit pr q0 = Some (g q0)) ->
+    exists E, NoDup E /\ (length E <= length S)%nat /\
+      Permutation (map (rowstr B) E) (filter (is_prefix p) S) /\
+      (forall j, In j E <-> exists s, In s S /\ is_prefix p s = true /\ nthN (rows_of B) j = Some (mkkey s, 255) /\ 2 <= j) /\
+      forall cap, gdrain emit d cap (xit_new l r) = Some (firstn cap (map g E), (cap <? length (map g E))%nat).
+  Proof.
+    intros Hp Hq Hchar Hlr Hl Hr Hemit.
+    destruct (range_drain S B d HB HA HS T emit g l r Hl Hr Hemit (N.to_nat (r + 1 - l)) l ltac:(lia) ltac:(lia) ltac:(lia))
+      as (E & HP & Hdr).
+    pose proof (leaves_strings S B HB p l r Hchar E Hr Hl HND HP) as HPS.
+    exists E. split; [|split; [|split; [exact HPS|split]]].
+    - apply (Permutation_NoDup (Permutation_sym HP)). apply (leaves_NoDup S B HB p l r Hchar Hr Hl).
+    - rewrite <- (map_length (rowstr B) E), (Permutation_length HPS). apply filter_len_le.
+    - intros j. rewrite <- (leaves_char S B HB p l r Hchar j Hr). split; apply Permutation_in; [exact HP|apply Permutation_sym; exact HP].
+    - intros cap. apply (gdrain_firstn emit d cap (length E)). rewrite Nat.add_comm.
+      unfold xit_new. pose proof (nodes_small S B d HA).
+      rewrite u64_small by (unfold W64, W32 in *; lia). apply Hdr.
+  Qed.
+
+  (* 3a. locatePrefix, for every cap of the client loop: the first [cap] IDs of a duplicate-free enumeration of
+     exactly the members with the prefix, MORE iff some are left *)
+  Theorem XBW_locatePrefix_cap p : p <> [] -> Forall qchar p ->
+    exists ids, NoDup ids /\ (length ids <= length S)%nat /\
+      (forall id, In id ids <-> exists s, In s S /\ is_prefix p s = true /\ id = spec_locate (xbw_order S) s) /\
+      forall cap, xbw_locatePrefix d p cap = Some (firstn cap ids, (cap <? length ids)%nat).
+  Proof.
+    intros Hp Hq. destruct (prefix_range_gen S B d HB HA p Hp Hq) as (l & r & Esp & Hchar & Hbnd).
+    unfold xbw_locatePrefix. rewrite Esp. change (xbw_order S) with (xbw_order_of B).
+    destruct (N.leb_spec l r) as [Hlr|Hlr].
+    - destruct (Hbnd Hlr) as [Hl Hr].
+      destruct (run_gen N (id_emit d) (fun j => seq_rank 255 (labels_of B) j) p l r Hp Hq Hchar Hlr Hl Hr) as (E & HND' & HLen & _ & HinE & Hdr).
+      { intros pr q0 _ Hq0. change (id_emit d pr q0) with (id_emit d q0 q0). apply (id_emit_ok S B d HB HA HS).
+        unfold LVi in Hq0. apply filter_In in Hq0 as [Hq0 _].
+        unfold STi in Hq0. destruct (nthN (rows_of B) pr); [|destruct Hq0].
+        apply ST_In in Hq0 as (k' & c' & y & Hrow & _). apply nthN_Some_lt in Hrow. rewrite rows_len in Hrow. exact Hrow. }
+      assert (Hid : forall j, In j E -> exists s, In s S /\ is_prefix p s = true /\ nthN (rows_of B) j = Some (mkkey s, 255) /\ 2 <= j /\
+                      seq_rank 255 (labels_of B) j = spec_locate (xbw_order_of B) s).
+      { intros j Hj. apply HinE in Hj as (s & Hs & Hpre & Hrow & Hj2). exists s. repeat split; auto.
+        apply (leaf_id S B HB j s Hrow). }
+      exists (map (fun j => seq_rank 255 (labels_of B) j) E). split; [|split; [|split]].
+      + apply NoDup_map_in; [|exact HND']. intros x y Hx Hy Exy.
+        destruct (Hid x Hx) as (s1 & Hs1 & _ & R1 & X2 & I1). destruct (Hid y Hy) as (s2 & Hs2 & _ & R2 & _ & I2).
+        rewrite I1, I2 in Exy.
+        assert (s1 = s2).
+        { apply (order_In S B HB) in Hs1, Hs2.
+          pose proof (spec_extract_locate _ _ Hs1) as X1. pose proof (spec_extract_locate _ _ Hs2) as X2'.
+          rewrite Exy in X1. congruence. }
+        subst s2. apply (row_inj S B HB x y _ _ R1 R2 X2).
+      + rewrite map_length. exact HLen.
+      + intros id. rewrite in_map_iff. split.
+        * intros (j & <- & Hj). destruct (Hid j Hj) as (s & Hs & Hpre & _ & _ & I). eauto.
+        * intros (s & Hs & Hpre & ->). destruct (bi_mem _ _ HB _ Hs) as (b & Hb & Ek & H255).
+          assert (HR : RowIn B (mkkey s) 255).
+          { exists b. split; [|auto]. apply (has255_tl S B HB b Hb). apply has_In. exact H255. }
+          destruct (RowIn_row S B HB _ _ HR) as (j & Hj & Hj2 & _).
+          exists j. split; [apply (leaf_id S B HB j s Hj)|]. apply HinE. exists s. auto.
+      + intros cap. rewrite xit_drain_gdrain. apply Hdr.
+    - exists []. split; [constructor|]. split; [cbn [length]; lia|]. split.
+      + intros id. split; [intros []|].
+        intros (s & Hs & Hpre & _). pose proof (member_row p s l r Hchar Hs Hpre). lia.
+      + intros cap. rewrite firstn_nil. reflexivity.
+  Qed.
+
+  Theorem XBW_locatePrefix_spec p : p <> [] -> Forall qchar p ->
+    exists ids, xbw_locatePrefix d p (3 + length S) = Some (ids, false) /\ NoDup ids /\
+      forall id, In id ids <-> exists s, In s S /\ is_prefix p s = true /\ id = spec_locate (xbw_order S) s.
+  Proof.
+    intros Hp Hq. destruct (XBW_locatePrefix_cap p Hp Hq) as (ids & HN & HL & Hin & Hcap).
+    exists ids. split; [|auto]. rewrite Hcap, firstn_all2 by lia.
+    replace (3 + length S <? length ids)%nat with false by (symmetry; apply Nat.ltb_ge; lia). reflexivity.
+  Qed.
+
+  (* a pattern some member starts with is not longer than the longest member: the strncpy guard is dead *)
+  Lemma prefix_len p s : In s S -> is_prefix p s = true -> lenN p <= spec_maxlen S.
+  Proof.
+    intros Hs Hpre. pose proof (spec_maxlen_bounds_aux S s Hs). apply is_prefix_app in Hpre as [t ->].
+    rewrite lenN_app in H. lia.
+  Qed.
+
+  Lemma sit_run p l r : p <> [] -> Forall qchar p ->
+    (forall i k c, nthN (rows_of B) i = Some (k, c) -> (l <= i <= r <-> k = mkkey p)) ->
+    l <= r -> 2 <= l -> r < lenN (labels_of B) ->
+    exists L, Permutation (map fst L) (filter (is_prefix p) S) /\ (forall s n, In (s, n) L -> n = lenN s) /\
+      forall cap, sit_drain d p cap (xit_new l r) = Some (firstn cap L, (cap <? length L)%nat).
+  Proof.
+    intros Hp Hq Hchar Hlr Hl Hr.
+    destruct (run_gen (list N * N) (sit_emit d p) (fun j => (rowstr B j, lenN (rowstr B j))) p l r Hp Hq Hchar Hlr Hl Hr)
+      as (E & _ & HLen & HPS & _ & Hdr).
+    { intros pr q0 Hpr Hq0. assert (Hpr' : pr < lenN (rows_of B)) by (rewrite rows_len; lia).
+      destruct (nthN_lt_Some _ _ Hpr') as [[kp cp] Hrow]. pose proof (proj1 (Hchar pr kp cp Hrow) Hpr) as ->.
+      apply (sit_emit_ok S B d HB HA pr (mkkey p) cp Hrow ltac:(lia) p q0 member_chars eq_refl Hq0). }
+    exists (map (fun j => (rowstr B j, lenN (rowstr B j))) E). split; [|split].
+    - rewrite map_map. cbn [fst]. exact HPS.
+    - intros s n Hin. apply in_map_iff in Hin as (j & Ej & _). injection Ej as <- <-. reflexivity.
+    - intros cap. rewrite sit_drain_gdrain. apply Hdr.
+  Qed.
+
+  Lemma perm_len_le (L : list (list N * N)) p : Permutation (map fst L) (filter (is_prefix p) S) -> (length L <= length S)%nat.
+  Proof.
+    intros HP. rewrite <- (map_length fst L), (Permutation_length HP). apply filter_len_le.
+  Qed.
+
+  (* 2. extractPrefix of the current tree: NULL exactly when no member has the prefix; otherwise the iterator is
+     built and the strncpy of the pattern into the maxlength+1 bytes is within bounds, whatever |p| *)
+  Theorem XBW_extractPrefix_api_no_overflow p cap : p <> [] -> Forall qchar p ->
+    exists l r, xbw_subPathSearch d (0 :: p) = Some (l, r) /\
+      ((r < l /\ (forall s, In s S -> is_prefix p s = false) /\ xbw_extractPrefix_api d p cap = Some None) \/
+       (l <= r /\ (exists s, In s S /\ is_prefix p s = true) /\ lenN p <= spec_maxlen S /\
+        (x_maxlength d + 1 <? lenN p) = false /\
+        xbw_extractPrefix_api d p cap = option_map Some (sit_drain d p cap (xit_new l r)))).
+  Proof.
+    intros Hp Hq. destruct (prefix_range_gen S B d HB HA p Hp Hq) as (l & r & Esp & Hchar & Hbnd).
+    exists l, r. split; [exact Esp|]. unfold xbw_extractPrefix_api, xbw_extractPrefix. rewrite Esp.
+    destruct (N.ltb_spec r l) as [Hlr|Hlr].
+    - left. split; [exact Hlr|]. split; [|reflexivity]. intros s Hs. destruct (is_prefix p s) eqn:Hpre; [|reflexivity].
+      pose proof (member_row p s l r Hchar Hs Hpre). lia.
+    - right. destruct (Hbnd Hlr) as [Hl Hr]. destruct (range_member p l r Hchar Hlr Hl Hr) as (s & Hs & Hpre).
+      pose proof (prefix_len p s Hs Hpre) as HL.
+      assert (HG : (x_maxlength d + 1 <? lenN p) = false) by (rewrite (ai_maxlen _ _ _ HA); lia).
+      split; [exact Hlr|]. split; [eauto|]. split; [exact HL|]. split; [exact HG|]. rewrite HG. reflexivity.
+  Qed.
+
+  Theorem XBW_extractPrefix_api_null_iff p cap : p <> [] -> Forall qchar p ->
+    (xbw_extractPrefix_api d p cap = Some None <-> forall s, In s S -> is_prefix p s = false).
+  Proof.
+    intros Hp Hq. destruct (XBW_extractPrefix_api_no_overflow p cap Hp Hq) as (l & r & _ & [(_ & Hno & E)|(_ & (s & Hs & Hpre) & _ & _ & E)]).
+    - split; auto.
+    - rewrite E. split.
+      + destruct (sit_drain d p cap (xit_new l r)); discriminate.
+      + intros H. rewrite (H s Hs) in Hpre. discriminate.
+  Qed.
+
+  (* 3b. extractPrefix (current tree), every pattern length, every cap *)
+  Theorem XBW_extractPrefix_api_cap p : p <> [] -> Forall qchar p -> (exists s, In s S /\ is_prefix p s = true) ->
+    exists L, Permutation (map fst L) (filter (is_prefix p) S) /\ (forall s n, In (s, n) L -> n = lenN s) /\
+      forall cap, xbw_extractPrefix_api d p cap = Some (Some (firstn cap L, (cap <? length L)%nat)).
+  Proof.
+    intros Hp Hq (s & Hs & Hpre).
+    destruct (prefix_range_gen S B d HB HA p Hp Hq) as (l & r & Esp & Hchar & Hbnd).
+    pose proof (member_row p s l r Hchar Hs Hpre) as Hlr. destruct (Hbnd Hlr) as [Hl Hr].
+    destruct (sit_run p l r Hp Hq Hchar Hlr Hl Hr) as (L & HP & HLn & HD).
+    exists L. split; [exact HP|]. split; [exact HLn|]. intros cap.
+    destruct (XBW_extractPrefix_api_no_overflow p cap Hp Hq) as (l' & r' & Esp' & [(_ & Hno & _)|(_ & _ & _ & _ & E)]).
+    - rewrite (Hno s Hs) in Hpre. discriminate.
+    - rewrite Esp in Esp'. injection Esp' as <- <-. rewrite E, HD. reflexivity.
+  Qed.
+
+  Theorem XBW_extractPrefix_api_spec p : p <> [] -> Forall qchar p ->
+    ((exists s, In s S /\ is_prefix p s = true) ->
+       exists L, xbw_extractPrefix_api d p (3 + length S) = Some (Some (L, false)) /\
+         Permutation (map fst L) (filter (is_prefix p) S) /\ forall s n, In (s, n) L -> n = lenN s) /\
+    ((forall s, In s S -> is_prefix p s = false) -> xbw_extractPrefix_api d p (3 + length S) = Some None).
+  Proof.
+    intros Hp Hq. split; [|apply XBW_extractPrefix_api_null_iff; assumption].
+    intros Hex. destruct (XBW_extractPrefix_api_cap p Hp Hq Hex) as (L & HP & HLn & HD).
+    exists L. split; [|auto]. pose proof (perm_len_le L p HP).
+    assert (HL : (length L <= 3 + length S)%nat) by (eapply Nat.le_trans; [exact H|lia]).
+    rewrite HD, (firstn_all2 L HL), (proj2 (Nat.ltb_ge _ _) HL). reflexivity.
+  Qed.
+
+  (* the iterator alone (the statement of XBWProofs.v, |p| <= maxlen + 2) *)
+  Theorem XBW_extractPrefix_spec p : p <> [] -> Forall qchar p -> lenN p <= spec_maxlen S + 2 ->
+    exists L, xbw_extractPrefix d p (3 + length S) = Some (L, false) /\
+      Permutation (map fst L) (filter (is_prefix p) S) /\ forall s n, In (s, n) L -> n = lenN s.
+  Proof.
+    intros Hp Hq HLp. destruct (prefix_range_gen S B d HB HA p Hp Hq) as (l & r & Esp & Hchar & Hbnd).
+    unfold xbw_extractPrefix. rewrite Esp. rewrite (ai_maxlen _ _ _ HA).
+    replace (spec_maxlen S + 1 + 1 <? lenN p) with false by lia.
+    destruct (N.leb_spec l r) as [Hlr|Hlr].
+    - destruct (Hbnd Hlr) as [Hl Hr]. destruct (sit_run p l r Hp Hq Hchar Hlr Hl Hr) as (L & HP & HLn & HD).
+      exists L. split; [|auto]. pose proof (perm_len_le L p HP).
+      assert (HL : (length L <= 3 + length S)%nat) by (eapply Nat.le_trans; [exact H|lia]).
+      rewrite HD, (firstn_all2 L HL), (proj2 (Nat.ltb_ge _ _) HL). reflexivity.
+    - exists []. split; [|split; [|intros s n []]].
+      + cbn [Nat.add sit_drain]. replace (xit_hasNext (xit_new l r)) with false; [reflexivity|].
+        unfold xit_hasNext, xit_new. cbn [xi_processed xi_scan]. symmetry. apply N.ltb_ge.
+        unfold u64. etransitivity; [apply N.mod_le; unfold W64; lia|lia].
+      + cbn [map]. rewrite filter_none; [constructor|]. intros s Hs. destruct (is_prefix p s) eqn:Hpre; [|reflexivity].
+        pose proof (member_row p s l r Hchar Hs Hpre). lia.
+  Qed.
+End Final.
+
+(* the statements XBWProofs.v kept as definitions *)
+Theorem xbw_getChildren_spec_full_proved : xbw_getChildren_spec_full.
+Proof. intros S d n k c HV HC. apply (XBW_getChildren_spec S d HV HC). Qed.
+
+Theorem xbw_locatePrefix_spec_full_proved : xbw_locatePrefix_spec_full.
+Proof. intros S d p HV HC. apply (XBW_locatePrefix_spec S d HV HC). Qed.
+
+Theorem xbw_extractPrefix_spec_full_proved : xbw_extractPrefix_spec_full.
+Proof. intros S d p HV HC. apply (XBW_extractPrefix_spec S d HV HC). Qed.
